@@ -35,7 +35,7 @@ Every score function also carries a *trap*: a point with an out-of-domain real
 feature (NaN, outside [0,1], category index < 0 or >= size) scores 1e3, above
 every in-domain score, so an optimiser that ever evaluates (or accepts as a
 prior) such a point reports it as its best and fails the bounds clause.
-In 1 of 4 cases with categorical features the same process first optimises a
+In 1 of 5 cases with categorical features the same process first optimises a
 *sibling layout* (same parameter names / kinds / padding, category counts +2)
 and afterwards another one (counts -1): state shared across studies (caches
 keyed on names) shows up as a category index >= size in the main run or in the
@@ -62,8 +62,8 @@ RULE = ('Hypothesis draws a static configuration (one of 24 layouts: 0-4 '
         'categorical indicators, optional floor-plateaus, optional NaN / -inf '
         '/ +inf region (half space, one category, or exactly the target '
         'point), optional optimum placed on a prior point, out-of-domain '
-        'trap). 1 case in 5 is steered to trial-padded priors with '
-        'n_parallel=2 and an odd prior count; 1 in 4 categorical cases runs '
+        'trap). 1 case in 6 is steered to trial-padded priors with '
+        'n_parallel=2 and an odd prior count; 1 in 5 categorical cases runs '
         'sibling layouts (other category counts) before and after. evaluations = '
         'optimiser runs (3 per sub-case: seed, other seed, seed again; +1 on '
         'a rebuilt optimiser in 1 of 4 cases). 5 of 6 prior cases and 7 of 8 '
@@ -84,6 +84,10 @@ ASSUMPTIONS = [
     'prior trials are built from harness-mapped parameter values and converted '
     'with the real converter (vb.trials_to_sorted_array); padded feature '
     'dimensions are computed from the PaddingType docs',
+    'all converters of one padding kind share one PaddingSchedule object '
+    '(the from_problem default for no padding), as in a process configured '
+    'once; the score trap value 1e3 exceeds every in-domain score of the '
+    'grammar (< 30) except a +inf region',
     'equinox.filter_jit / XLA CPU compile the optimiser faithfully; the '
     'ordered io_callback in the score function is executed exactly once per '
     'score call of the optimiser (it returns the logged value itself)',
@@ -131,10 +135,10 @@ def _score_desc():
 def _case(draw, max_subs=6):
   from harness import c19_lib as lib
   layout = draw(st.integers(0, lib.N_MAIN - 1))
-  # 1 case in 5: priors that are padded in the trial dimension, n_parallel=2
+  # 1 case in 6: priors that are padded in the trial dimension, n_parallel=2
   # and an odd number of priors (the last parallel batch would mix a real
   # prior with a padding row)
-  partial = draw(st.integers(0, 4)) == 0
+  partial = draw(st.integers(0, 5)) == 0
   if partial:
     layout = draw(st.sampled_from(
         [i for i in range(lib.N_MAIN)
@@ -196,7 +200,7 @@ def _case(draw, max_subs=6):
                       if n_prior else None),
     })
   rebuild = draw(st.integers(0, 3)) == 0
-  sibling = lib.has_sibling(layout) and draw(st.integers(0, 3)) == 0
+  sibling = lib.has_sibling(layout) and draw(st.integers(0, 4)) == 0
   return {'rebuild': rebuild, 'sibling': sibling, 'layout': layout,
           'strategy': strategy,
           'batch': batch,
